@@ -64,7 +64,7 @@ var (
 
 type rsStream struct {
 	K   int    `json:"k"`
-	End string `json:"end"` // eof | err | openfail
+	End string `json:"end"` // eof | err (status Unavailable) | cerr (status Canceled sent by the server while the caller is alive) | openfail
 }
 
 type rsCase struct {
@@ -79,7 +79,7 @@ type rsCase struct {
 type rsMsg struct{ ID string }
 
 // per-stream alphabet, simplest first
-var rsAlphabet = []rsStream{{0, "eof"}, {0, "err"}, {0, "openfail"}, {1, "eof"}, {1, "err"}, {2, "eof"}, {2, "err"}}
+var rsAlphabet = []rsStream{{0, "eof"}, {0, "err"}, {0, "openfail"}, {1, "eof"}, {1, "err"}, {2, "eof"}, {2, "err"}, {0, "cerr"}, {1, "cerr"}}
 
 func rsIsWatch(m string) bool {
 	for _, w := range rsWatchMethods {
@@ -234,9 +234,13 @@ func (r *rsRun) streamer(ctx context.Context, desc *grpc.StreamDesc, _ *grpc.Cli
 		return nil, o.err
 	}
 	st := &rsClientStream{run: r, idx: idx, spec: spec}
-	if spec.End == "eof" {
+	switch spec.End {
+	case "eof":
 		st.endErr = io.EOF
-	} else {
+	case "cerr":
+		// the far side (handler, proxy, RST_STREAM(CANCEL)) ends the stream with status Canceled; the caller has not cancelled
+		st.endErr = status.Errorf(codes.Canceled, "stream %d cancelled by the server", idx)
+	default:
 		st.endErr = status.Errorf(codes.Unavailable, "stream %d broke", idx)
 	}
 	o.st = st
@@ -531,7 +535,7 @@ var rsSampled = map[string]bool{}
 
 func retryEnum(t *testing.T, c *vcore.Ctx) {
 	c.SetRule("method in {/pb.CoreRPC/WorkloadStatusStream, /pb.CoreRPC/WatchServiceStatus, /pb.CoreRPC/LogStream (not a watch)} x Max in {0,1,2,3} (thorough: also 4) x every server script of 1..Max+2 streams " +
-		"(non-watch: 1..2) over {k in 0,1,2 messages then EOF | transport error} + {open refused} (nothing is enumerated after a refused first open; opens beyond the script are refused) " +
+		"(non-watch: 1..2) over {k in 0,1,2 messages then EOF | transport error (status Unavailable)} + {k in 0,1 messages then status Canceled sent by the server while the caller is alive} + {open refused} (nothing is enumerated after a refused first open; opens beyond the script are refused) " +
 		"x caller cancellation in {never, before the first RecvMsg, after the i-th delivered message (every i up to the script's total), 1ms into the back-off after the j-th fruitless reopen attempt (j in 1..Max+1)} " +
 		"x what a stream reports once cancelled {grpc status Canceled, bare context.Canceled}; the interceptor is called directly with a scripted grpc.Streamer inside a synctest bubble; " +
 		"non-trivial = at least one reopen happened or a cancellation took effect before the call ended; distinct by full case")
@@ -695,6 +699,8 @@ func (s *rsSmokeServer) WorkloadStatusStream(o *pb.WorkloadStatusStreamOptions, 
 	case "hold":
 		<-st.Context().Done()
 		return st.Context().Err()
+	case "cerr":
+		return status.Errorf(codes.Canceled, "stream %d cancelled by the server", idx)
 	}
 	return status.Errorf(codes.Unavailable, "stream %d broke", idx)
 }
@@ -754,6 +760,7 @@ func retrySmoke(t *testing.T, c *vcore.Ctx) {
 		{true, 1, []rsStream{{0, "err"}, {2, "err"}}, 0},
 		{true, 1, []rsStream{{1, "eof"}, {0, "eof"}, {1, "err"}}, 0},
 		{true, 2, []rsStream{{0, "err"}}, 0},
+		{true, 1, []rsStream{{1, "cerr"}, {2, "eof"}}, 0},
 		{true, 1, []rsStream{{1, "hold"}}, 1},
 	}
 	for i := range cases {
